@@ -71,6 +71,12 @@ ReplyVerdict(f, handler, out) ==
 RECURSIVE EndOffsets(_, _, _)
 EndOffsets(frames, i, acc) == IF i > Len(frames) THEN <<>> ELSE <<acc + Len(frames[i])>> \o EndOffsets(frames, i + 1, acc + Len(frames[i]))
 Completed(frames, delivered) == LET e == EndOffsets(frames, 1, 0) IN Cardinality({i \in DOMAIN e : e[i] <= delivered})
+\* frames whose reply the statements determine completely: legal ones (the device's answer), unsupported function
+\* codes (exception 01) and out-of-range quantities / values (exception 03)
+Answerable(f) == FrameClass(f) \in {"legal", "unsupported", "outoflimit"}
+ReplyOf(f) == CASE FrameClass(f) = "legal" -> DeviceReply(f)
+                [] FrameClass(f) = "unsupported" -> Exception(f, 1)
+                [] OTHER -> Exception(f, 3)
 RECURSIVE Replies(_, _)
-Replies(frames, k) == IF k = 0 THEN <<>> ELSE Replies(frames, k - 1) \o DeviceReply(frames[k])
+Replies(frames, k) == IF k = 0 THEN <<>> ELSE Replies(frames, k - 1) \o ReplyOf(frames[k])
 =============================================================================
